@@ -1032,7 +1032,7 @@ def approx_same(a, b):
     for axis in range(len(a[0])):      # per axis (rounding may reorder / merge points)
         xs, ys = sorted(val(p[axis]) for p in a), sorted(val(p[axis]) for p in b)
         for x, y in zip(xs, ys):
-            if not (x == y or abs(x - y) <= 1e-5 * max(abs(x), abs(y)) or max(abs(x), abs(y)) < 1e-30
+            if not (x == y or abs(x - y) <= 1e-5 * max(abs(x), abs(y)) or (x == 0.0 and abs(y) < 1e-30)
                     or (np.isinf(x) and abs(y) > 1e38) or (np.isinf(y) and abs(x) > 1e38)):
                 return False
     return True
@@ -1106,18 +1106,37 @@ def with_index(rows, cols, scheme, rng, dtypes=None):
     return df
 
 
+COLUMN_SCHEMES = ('same', 'permuted', 'extra', 'int-labels')
+
+
+def column_frames(cols, real, synth, schemes, rng, dtypes, colscheme, compare):
+    """(real frame, synth frame, label of each logical column).  `real` / `synth` rows are in the order of `cols`;
+    the synthetic FRAME may carry the same labels in another order, extra columns, or integer labels - pandas
+    aligns by label, so the figure must show the values addressed BY LABEL whatever the positions are"""
+    labels = list(range(len(cols))) if colscheme == 'int-labels' else list(cols)
+    fr = with_index(real, labels, schemes[0], rng, dtypes)
+    fs = with_index(synth, labels, schemes[1], rng, dtypes)
+    if compare and colscheme in ('permuted', 'extra', 'int-labels') and len(labels) > 1:
+        perm = list(labels)
+        while perm == list(labels):
+            rng.shuffle(perm)
+        fs = fs[perm]
+    if compare and colscheme == 'extra':
+        fs.insert(rng.randint(0, len(labels)), 'q', [float(i) + 0.5 for i in range(len(fs))])
+    return fr, fs, labels
+
+
 def plot_case(lean, fname, cols, real, synth, req, titled=False, schemes=('default', 'default'), rng=None,
-              dtypes=None):
+              dtypes=None, colscheme='same'):
     import copulas.visualization as V
     dim = 2 if '2d' in fname else 3
     kind = 'scatter' if fname.startswith('scatter') else 'compare'
     with warnings.catch_warnings():
         warnings.simplefilter('ignore')
         try:
-            r_req = None if req is None else list(req)
             title = 'T' if titled else None
-            fr = with_index(real, cols, schemes[0], rng, dtypes)
-            fs = with_index(synth, cols, schemes[1], rng, dtypes)
+            fr, fs, labels = column_frames(cols, real, synth, schemes, rng, dtypes, colscheme, kind == 'compare')
+            r_req = None if req is None else [labels[cols.index(c)] if c in cols else c for c in req]
             if kind == 'scatter':
                 fig = getattr(V, fname)(fr, r_req, title)
             else:
@@ -1128,9 +1147,15 @@ def plot_case(lean, fname, cols, real, synth, req, titled=False, schemes=('defau
 
     def rows(a):
         return f'{len(a)} ' + ' '.join(vc.f2h(x) for r in a for x in r)
-    line = f'plot {dim} {kind} {int(titled)} {len(cols)} {" ".join(cols)} '
+    mcols, mreal, msynth = list(cols), real, synth
+    if kind == 'compare' and colscheme == 'extra':
+        # the stacked frame has the union of the columns; the extra one is never requested
+        mcols = list(cols) + ['q']
+        mreal = [list(r) + [0.0] for r in real]
+        msynth = [list(r) + [0.0] for r in synth]
+    line = f'plot {dim} {kind} {int(titled)} {len(mcols)} {" ".join(mcols)} '
     line += '-1 ' if req is None else f'{len(req)} {" ".join(req)} '
-    line += rows(real) + (' ' + rows(synth) if kind == 'compare' else '')
+    line += rows(mreal) + (' ' + rows(msynth) if kind == 'compare' else '')
     ws = lean.ask(' '.join(line.split())).split()
     if ws[0] == 'err':
         want = ('err', ws[1])
@@ -1175,6 +1200,28 @@ def plots(ctx, lean):
             if not ok and bad is None:
                 bad = {'builder': fname, 'columns': cols, 'request': req, 'index_schemes': schemes, 'real': real,
                        'synth': synth, 'figure': got, 'model': want}
+        # column order: the synthetic frame with the same labels permuted / with an extra column / integer labels,
+        # and `columns=` in an order different from the frame's: coordinates are addressed BY LABEL
+        applicable = COLUMN_SCHEMES if fname.startswith('compare') else ('same', 'int-labels')
+        for k, (cs, with_cols) in enumerate([(c, w) for c in applicable for w in (False, True, True)]):
+            width = dim + 1 if (with_cols and k % 2) else dim
+            cols = names[:width]
+            nr, ns = rng.randint(3, 8), rng.randint(2, 6)
+            real = [[cell() for _ in cols] for _ in range(nr)]
+            synth = [[cell() for _ in cols] for _ in range(ns)]
+            req = None
+            if with_cols:
+                req = rng.sample(cols, dim)
+                while req == cols[:dim]:
+                    rng.shuffle(req)
+            schemes = (rng.choice(INDEX_SCHEMES), rng.choice(INDEX_SCHEMES))
+            ok, got, want = plot_case(lean, fname, cols, real, synth, req, False, schemes, rng, None, cs)
+            ctx.case((fname, 'columns', cs, with_cols, width, k), nontrivial=True)
+            ctx.count(f'plot-columns:{cs}:{"given" if with_cols else "default"}')
+            ctx.count(f'plot:{fname}:{got[0] if got[0] == "ok" else got[1]}')
+            if not ok and bad is None:
+                bad = {'builder': fname, 'columns': cols, 'column_scheme': cs, 'request': req,
+                       'index_schemes': schemes, 'real': real, 'synth': synth, 'figure': got, 'model': want}
         # every value scale at least once with and without `columns`: the figure holds EXACTLY the given numbers
         # (bitwise: large offsets with fine spacing, epoch seconds, 1e-300, 1e300, denormals, -0.0, integers
         # beyond 2**24 as float64 and as int64, float32 columns)
@@ -1192,12 +1239,14 @@ def plots(ctx, lean):
                                                               dim - 1)
                 rng.shuffle(req)
             schemes = (rng.choice(INDEX_SCHEMES), rng.choice(INDEX_SCHEMES))
-            ok, got, want = plot_case(lean, fname, cols, real, synth, req, False, schemes, rng, dtypes)
-            ctx.case((fname, 'values', tuple(vschemes), with_cols, k), nontrivial=True)
+            cs = rng.choice(COLUMN_SCHEMES if fname.startswith('compare') else ('same', 'int-labels'))
+            ok, got, want = plot_case(lean, fname, cols, real, synth, req, False, schemes, rng, dtypes, cs)
+            ctx.case((fname, 'values', tuple(vschemes), with_cols, cs, k), nontrivial=True)
             ctx.count(f'plot-values:{vs}')
             ctx.count(f'plot:{fname}:{got[0] if got[0] == "ok" else got[1]}')
             if not ok and bad is None:
                 bad = {'builder': fname, 'columns': cols, 'dtypes': dtypes, 'value_scales': vschemes, 'request': req,
+                       'column_scheme': cs,
                        'index_schemes': schemes, 'real': real, 'synth': synth, 'figure': got, 'model': want}
         for k in range(n):
             width = rng.choice([dim, dim, dim + 1, 4, 2])
@@ -1293,15 +1342,21 @@ def plot_oracle(ctx, n):
                 schemes = (rng.choice(INDEX_SCHEMES), INDEX_SCHEMES[k % len(INDEX_SCHEMES)])
             rrows, dtypes = scaled_rows(rng, rng.randint(2, 9), vschemes)
             srows, _ = scaled_rows(rng, rng.randint(2, 7), vschemes)
-            real = with_index(rrows, cols, schemes[0], rng, dtypes)
-            synth = with_index(srows, cols, schemes[1], rng, dtypes)
+            applicable = COLUMN_SCHEMES if fname.startswith('compare') else ('same', 'int-labels')
+            cs = applicable[(k // 2) % len(applicable)]
+            real, synth, labels = column_frames(cols, rrows, srows, schemes, rng, dtypes, cs,
+                                                fname.startswith('compare'))
             req = None
             if with_cols:
-                key = cols[vschemes.index(vs)]
-                req = [key] + rng.sample([c for c in cols if c != key], dim - 1)
+                key = labels[vschemes.index(vs)]
+                req = [key] + rng.sample([c for c in labels if c != key], dim - 1)
                 rng.shuffle(req)
-            used = req or cols
-            inp = {'columns': cols, 'dtypes': dtypes, 'value_scales': vschemes, 'request': req,
+            elif cs == 'extra' and fname.startswith('compare'):
+                req = list(labels[:dim])        # default columns of a stacked frame with an extra column: arity error
+            used = req or labels
+            inp = {'columns': [str(c) for c in labels], 'synth_columns': [str(c) for c in synth.columns],
+                   'column_scheme': cs, 'dtypes': dtypes, 'value_scales': vschemes,
+                   'request': None if req is None else [str(c) for c in req],
                    'real_index': [str(i) for i in real.index], 'synth_index': [str(i) for i in synth.index],
                    'real': [[repr(v) for v in r] for r in rrows], 'synth': [[repr(v) for v in r] for r in srows]}
             with warnings.catch_warnings():
